@@ -127,8 +127,8 @@ def run(ctx):
     ctx.sample({'pair': [canonical(pairs[0][0]), canonical(pairs[0][1])]})
     ctx.sample({'unary_input': canonical(lhs[0])})
     # the same pairs on categories that live for one call only
-    rec = [(c[3][0], c[3][1], c[2]) for c in cases if c[0] == 'ja_bin' and isinstance(c[3], list) and len(c[3]) == 2
-           and all(isinstance(t, str) for t in c[3][:2]) and c[2].startswith('ok')]
+    rec = [(c[3][0], c[3][1], c[2], sig(x), sig(y)) for (x, y), c in zip(pairs + mal, cases)
+           if c[0] == 'ja_bin' and isinstance(c[3], list) and len(c[3]) == 2 and c[2].startswith('ok')]
     fired = [r for r in rec if r[2] != 'ok 0']
     sample = rng.sample(fired, min(len(fired), 500)) + rng.sample(rec, min(len(rec), 300))
     ctx.extra['short_lived_calls'] = G.short_lived_suite(ctx, ja.apply_binary_rules, sample, ctx.budget(4, 12))
